@@ -136,6 +136,7 @@ func cmdCheck(args []string) int {
 		t    float64
 	}
 	var rows []vrow
+	var violList []map[string]interface{}
 	report := func(rf *ReplayFile) {
 		os.MkdirAll(repdir, 0o755)
 		path := filepath.Join(repdir, sanitizeFile(rf.Obligation)+".json")
@@ -147,6 +148,12 @@ func cmdCheck(args []string) int {
 		}
 		fmt.Printf("VIOLATION property=%s replay=%s obligation=%s%s\n", *prop, path, rf.Obligation, suffix)
 		nviol++
+		violList = append(violList, map[string]interface{}{"obligation": rf.Obligation, "status": rf.Status, "replay": path, "confirmed_on_real_code": rf.Confirmed, "solver_detail": truncate(rf.SolverOut, 600)})
+		// keep a history of every violation ever reported (diagnosis of flaky obligations); not part of the evidence
+		if f, err := os.OpenFile(filepath.Join(*verif, "replays", "history.log"), os.O_APPEND|os.O_CREATE|os.O_WRONLY, 0o644); err == nil {
+			fmt.Fprintf(f, "%s %s %s %s %s\n", time.Now().UTC().Format(time.RFC3339), *prop, rf.Status, rf.Obligation, truncate(strings.ReplaceAll(rf.SolverOut, "\n", " "), 300))
+			f.Close()
+		}
 	}
 	for _, r := range results {
 		if r.Failed != "" {
@@ -279,6 +286,7 @@ func cmdCheck(args []string) int {
 		"assumptions": assumptions,
 		"wall_s":      round2(time.Since(t0).Seconds()),
 		"violations":  nviol,
+		"violation_list": violList,
 	}
 	if *out != "" {
 		os.MkdirAll(filepath.Dir(*out), 0o755)
